@@ -752,4 +752,191 @@ theorem buildThes_wf {b : Batch} (hp : SynPlainOK b) (n : Name) : ThesWF (buildT
   · rw [htable, tableOf_ids]; exact List.nodup_range' 1
   · rw [htable, tableOf_syns]; exact synIds_nodup b n
 
+/-! ### Specification side -/
+
+theorem mem_synPairs (b : Batch) (n : Name) (term : Bytes) (s : Bytes) (i : Nat) :
+    (s, i) ∈ synPairs b n term ↔
+      ∃ p ∈ b.zipIdx, ∃ df ∈ synDefs p.1 n, df.lhs = term ∧ s ∈ df.rhs ∧ i = p.2 := by
+  unfold synPairs
+  simp only [List.mem_flatMap, List.mem_filter, decide_eq_true_eq, List.mem_map, Prod.mk.injEq]
+  constructor
+  · rintro ⟨p, hp, df, ⟨hdf, hl⟩, s', hs', rfl, rfl⟩; exact ⟨p, hp, df, hdf, hl, hs', rfl⟩
+  · rintro ⟨p, hp, df, hdf, hl, hs, rfl⟩; exact ⟨p, hp, df, ⟨hdf, hl⟩, s, hs, rfl, rfl⟩
+
+theorem mem_spec_synonyms (b : Batch) (n : Name) (term : Bytes) (ex : Option (List Nat)) (q : Bytes × Nat) :
+    q ∈ Spec.synonyms b n term ex ↔ q ∈ synPairs b n term ∧ excluded ex q.2 = false := by
+  unfold Spec.synonyms
+  simp only [List.mem_filter, Bool.not_eq_true']
+
+theorem mem_zipIdx_of_mem {α : Type} {l : List α} {a : α} (h : a ∈ l) : ∃ i, (a, i) ∈ l.zipIdx := by
+  obtain ⟨i, hi⟩ := List.mem_iff_getElem?.1 h
+  exact ⟨i, List.mem_zipIdx_iff_getElem?.2 hi⟩
+
+theorem mem_thesTermsSet (b : Batch) (n : Name) (k : Bytes) :
+    k ∈ thesTermsSet b n ↔ ∃ d ∈ b, ∃ df ∈ synDefs d n, df.rhs ≠ [] ∧ df.lhs = k := by
+  unfold thesTermsSet
+  simp only [List.mem_flatMap, List.mem_map, List.mem_filter, Bool.not_eq_true', List.isEmpty_eq_false_iff]
+  constructor
+  · rintro ⟨d, hd, df, ⟨h1, h2⟩, h3⟩; exact ⟨d, hd, df, h1, h2, h3⟩
+  · rintro ⟨d, hd, df, h1, h2, h3⟩; exact ⟨d, hd, df, ⟨h1, h2⟩, h3⟩
+
+/-- A definition of thesaurus `n` in the batch makes `hasThes` true (on the domain). -/
+theorem hasThes_of_def {b : Batch} (hp : SynPlainOK b) {n : Name} {d : DocIn} (hd : d ∈ b)
+    {df : SynDefn} (hdf : df ∈ synDefs d n) : hasThes b n = true := by
+  obtain ⟨f, hf, hk, hn, _⟩ := mem_synDefs.1 hdf
+  exact (hasThes_iff_spec hp n).2 ⟨d, hd, f, hf, hk, hn⟩
+
+/-! ### C12 core: the built thesaurus against the specification -/
+
+theorem build_synonyms_mem (v : Bool) (mode : Nat) (b : Batch) (hne : b ≠ []) (hp : SynPlainOK b)
+    (n : Name) (term : Bytes) (ex : Option (List Nat)) (q : Bytes × Nat) :
+    q ∈ (buildSeg v mode b).synonyms n term ex ↔ q ∈ Spec.synonyms b n term ex := by
+  rw [mem_synonyms, mem_spec_synonyms, buildSeg_thes? v mode b hne]
+  obtain ⟨qs, qi⟩ := q
+  rw [mem_synPairs]
+  constructor
+  · rintro ⟨t, ht, cs, hl, c, hc, hex, hq⟩
+    split at ht
+    · cases ht
+      have hcode := (lookup_buildThes_terms b n term c).1 ⟨cs, hl, hc⟩
+      obtain ⟨p, hp', df, hdf, hlhs, s, hs, rfl⟩ := (hasCode_build _ b n term c).1 hcode
+      have htab : (buildThes b n).table = tableOf (synIds b n) := by rw [buildThes_eq]
+      rw [htab, lookup_tableOf_synIdOf (rhs_mem_synIds hp (zipIdx_mem_left hp') hdf hs)] at hq
+      simp only [Option.getD_some, Prod.mk.injEq] at hq
+      obtain ⟨rfl, rfl⟩ := hq
+      exact ⟨⟨p, hp', df, hdf, hlhs, hs, rfl⟩, hex⟩
+    · cases ht
+  · rintro ⟨⟨p, hp', df, hdf, hlhs, hs, rfl⟩, hex⟩
+    have hth := hasThes_of_def hp (zipIdx_mem_left hp') hdf
+    rw [if_pos hth]
+    refine ⟨_, rfl, ?_⟩
+    have hcode : HasCode (runEvs (evs (synIds b n) b n) []) term (synIdOf (synIds b n) qs, p.2) :=
+      (hasCode_build _ b n term _).2 ⟨p, hp', df, hdf, hlhs, qs, hs, rfl⟩
+    obtain ⟨cs, hl, hc⟩ := (lookup_buildThes_terms b n term _).2 hcode
+    refine ⟨cs, hl, _, hc, hex, ?_⟩
+    have htab : (buildThes b n).table = tableOf (synIds b n) := by rw [buildThes_eq]
+    rw [htab, lookup_tableOf_synIdOf (rhs_mem_synIds hp (zipIdx_mem_left hp') hdf hs)]
+    rfl
+
+theorem build_thes_wf (v : Bool) (mode : Nat) (b : Batch) (hne : b ≠ []) (hp : SynPlainOK b) :
+    SegThesWF (buildSeg v mode b) := by
+  intro n t ht
+  rw [buildSeg_thes? v mode b hne] at ht
+  split at ht
+  · cases ht; exact buildThes_wf hp n
+  · cases ht
+
+theorem build_thesTerms_mem (v : Bool) (mode : Nat) (b : Batch) (hne : b ≠ []) (hp : SynPlainOK b)
+    (n : Name) (k : Bytes) :
+    k ∈ (buildSeg v mode b).thesTerms n ↔ k ∈ thesTermsSet b n := by
+  rw [mem_thesTerms, mem_thesTermsSet, buildSeg_thes? v mode b hne]
+  constructor
+  · rintro ⟨t, ht, cs, hl⟩
+    split at ht
+    · cases ht
+      have hwf := buildThes_wf hp n
+      have hne' := (hwf.codesAsc _ (lookup_mem hl)).1
+      cases cs with
+      | nil => exact absurd rfl hne'
+      | cons c cs =>
+        have hcode := (lookup_buildThes_terms b n k c).1 ⟨_, hl, List.mem_cons_self⟩
+        obtain ⟨p, hp', df, hdf, hlhs, s, hs, _⟩ := (hasCode_build _ b n k c).1 hcode
+        exact ⟨p.1, zipIdx_mem_left hp', df, hdf, List.ne_nil_of_mem hs, hlhs⟩
+    · cases ht
+  · rintro ⟨d, hd, df, hdf, hrhs, hlhs⟩
+    rw [if_pos (hasThes_of_def hp hd hdf)]
+    refine ⟨_, rfl, ?_⟩
+    obtain ⟨i, hi⟩ := mem_zipIdx_of_mem hd
+    cases hr : df.rhs with
+    | nil => exact absurd hr hrhs
+    | cons s rest =>
+      have hs : s ∈ df.rhs := by rw [hr]; exact List.mem_cons_self
+      have hcode : HasCode (runEvs (evs (synIds b n) b n) []) k (synIdOf (synIds b n) s, i) :=
+        (hasCode_build _ b n k _).2 ⟨(d, i), hi, df, hdf, hlhs, s, hs, rfl⟩
+      obtain ⟨cs, hl, _⟩ := (lookup_buildThes_terms b n k _).2 hcode
+      exact ⟨cs, hl⟩
+
+/-! ### Synonym fields contribute nothing to the term dictionaries -/
+
+theorem accField_name_mem (acc : List FieldAcc) (f : FieldIn) (a : FieldAcc) (h : a ∈ accField acc f) :
+    a.name ∈ acc.map (·.name) ∨ a.name = f.name := by
+  unfold accField at h
+  split at h
+  · obtain ⟨a', ha', e⟩ := List.mem_map.1 h
+    refine Or.inl (List.mem_map.2 ⟨a', ha', ?_⟩)
+    subst e
+    split <;> rfl
+  · rcases List.mem_append.1 h with h | h
+    · exact Or.inl (List.mem_map.2 ⟨a, h, rfl⟩)
+    · simp only [List.mem_singleton] at h
+      subst h; exact Or.inr rfl
+
+theorem foldl_accField_name_mem (fs : List FieldIn) (acc : List FieldAcc) (a : FieldAcc)
+    (h : a ∈ fs.foldl accField acc) : a.name ∈ acc.map (·.name) ∨ ∃ f ∈ fs, f.name = a.name := by
+  induction fs generalizing acc with
+  | nil => exact Or.inl (List.mem_map.2 ⟨a, h, rfl⟩)
+  | cons f fs ih =>
+    rw [List.foldl_cons] at h
+    rcases ih _ h with h' | ⟨g, hg, e⟩
+    · obtain ⟨a', ha', e⟩ := List.mem_map.1 h'
+      rcases accField_name_mem acc f a' ha' with h1 | h1
+      · exact Or.inl (e ▸ h1)
+      · exact Or.inr ⟨f, by simp, by rw [← e, h1]⟩
+    · exact Or.inr ⟨g, by simp [hg], e⟩
+
+theorem commitFields_untouched (tbl : List Name) (doc : Nat) (n : Name) (hn : n ∈ tbl)
+    (accs : List FieldAcc) (hno : ∀ a ∈ accs, a.name ≠ n) (ds : Dicts) (hlen : ds.length = tbl.length) :
+    ((accs.foldl (commitField tbl doc) ds).getD (fieldIdOf tbl n) [] = ds.getD (fieldIdOf tbl n) []) ∧
+    (accs.foldl (commitField tbl doc) ds).length = tbl.length := by
+  induction accs generalizing ds with
+  | nil => exact ⟨rfl, hlen⟩
+  | cons a accs ih =>
+    rw [List.foldl_cons]
+    have hl' : (commitField tbl doc ds a).length = tbl.length := by
+      rw [Stored.commitField_length]; exact hlen
+    obtain ⟨h1, h2⟩ := ih (fun x hx => hno x (by simp [hx])) _ hl'
+    refine ⟨?_, h2⟩
+    rw [h1, commitField_eq, getD_modify _ _ _ _ (by rw [hlen]; exact fieldIdOf_lt hn)]
+    have : fieldIdOf tbl a.name ≠ fieldIdOf tbl n := fun e => hno a (by simp) (fieldIdOf_inj hn e)
+    rw [if_neg this]
+
+theorem processDocs_untouched (v : Bool) (tbl : List Name) (n : Name) (hn : n ∈ tbl) (b : Batch)
+    (hno : ∀ d ∈ b, ∀ f ∈ d.fields, f.name = n → f.kind = .syn) :
+    (processDocs v tbl b).getD (fieldIdOf tbl n) [] = [] := by
+  unfold processDocs
+  have h0 : (tbl.map (fun _ => ([] : List (Bytes × List Entry)))).getD (fieldIdOf tbl n) [] = [] := by
+    rw [List.getD_eq_getElem?_getD, List.getElem?_map]
+    cases tbl[fieldIdOf tbl n]? <;> rfl
+  have hl0 : (tbl.map (fun _ => ([] : List (Bytes × List Entry)))).length = tbl.length := by simp
+  generalize tbl.map (fun _ => ([] : List (Bytes × List Entry))) = ds at h0 hl0
+  have hall : ∀ p ∈ b.zipIdx, ∀ f ∈ p.1.fields, f.name = n → f.kind = .syn :=
+    fun p hp => hno p.1 (zipIdx_mem_left hp)
+  generalize b.zipIdx = l at hall
+  induction l generalizing ds with
+  | nil => exact h0
+  | cons p l ih =>
+    rw [List.foldl_cons]
+    have hacc : ∀ a ∈ docAcc v p.1, a.name ≠ n := by
+      intro a ha e
+      unfold docAcc at ha
+      rcases foldl_accField_name_mem _ [] a ha with h | ⟨f, hf, hfe⟩
+      · cases h
+      · obtain ⟨hf1, hf2⟩ := List.mem_filter.1 hf
+        have hk := hall p (by simp) f ((Stored.mem_visitOrder p.1 f).1 hf1) (hfe.trans e)
+        unfold invProcessed at hf2
+        rw [hk] at hf2
+        cases hf2
+    obtain ⟨h1, h2⟩ := commitFields_untouched tbl p.2 n hn (docAcc v p.1) hacc ds hl0
+    exact ih _ (by unfold processDoc; rw [h1]; exact h0) (by unfold processDoc; exact h2)
+      (fun q hq => hall q (by simp [hq]))
+
+theorem build_dictTerms_syn (v : Bool) (mode : Nat) (b : Batch) (hne : b ≠ []) (n : Name)
+    (hno : ∀ d ∈ b, ∀ f ∈ d.fields, f.name = n → f.kind = .syn) :
+    (buildSeg v mode b).dictTerms n = [] := by
+  rw [buildSeg_dictTerms v mode b hne n]
+  split
+  · rename_i hn
+    rw [processDocs_untouched v _ n hn b hno]; rfl
+  · rfl
+
 end Zap.SynL
